@@ -277,9 +277,16 @@ def run(ctx):
             t = ""
             if other:
                 j = other[0]
+                narrowed = None
                 while g.k(j) in ("Paren", "ICast"):      # implicit promotions only: an explicit cast decides the signedness
+                    # ... but an implicit conversion *to* a plain or signed char (a byte handed to a
+                    # `char` parameter or variable) decides it too
+                    tj = g.nodes[j].get("ct", g.nodes[j].get("t", "")).replace("const ", "").strip()
+                    if g.k(j) == "ICast" and tj in ("char", "signed char"):
+                        narrowed = tj
+                        break
                     j = g.ch(j)[0]
-                t = g.nodes[j].get("ct", g.nodes[j].get("t", ""))
+                t = narrowed or g.nodes[j].get("ct", g.nodes[j].get("t", ""))
             ctx.check(e3, t.replace("const ", "").strip() in ("unsigned char", "unsigned int", "uint8", "unsigned short"), key(g, "control-test@%d" % g.line(i)), g.where(i), "the control-character test compares a value of type `%s`: with a signed char every byte of a UTF-8 sequence (>= 0x80) is negative, counts as a control character and is written as \\u00XX, which changes the word" % t)
     ctx.check(e3, ntests >= 2, key(je, "control-tests"), je.where(je.root), "expected the control-character test in both passes of json_escape (found %d)" % ntests)
     # both passes decide alike: same multiset of conditions in the counting loop and in the writing loop
